@@ -117,6 +117,7 @@ func (n *Net) Gossip() {
 						}
 						if bid, ok := vs.TwoThirdsMajority(); ok {
 							_ = dst.CS.VerifVotes().SetPeerMaj23(r, typ, peerID(i), bid)
+							n.sendClaimed(i, j, dst, r, typ, bid, votesOf(vs))
 						}
 						for _, v := range votesOf(vs) {
 							n.gsend(i, j, &cs.VoteMessage{Vote: v})
@@ -143,6 +144,13 @@ func (n *Net) Gossip() {
 				// so that precommits conflicting with what a faulty validator sent it earlier are accepted
 				if rsj.Votes != nil {
 					_ = dst.CS.VerifVotes().SetPeerMaj23(commit.Round, tmproto.PrecommitType, peerID(i), commit.BlockID)
+					var cv []*types.Vote
+					for idx := range commit.Signatures {
+						if commit.Signatures[idx].ForBlock() {
+							cv = append(cv, commit.GetVote(int32(idx)))
+						}
+					}
+					n.sendClaimed(i, j, dst, commit.Round, tmproto.PrecommitType, commit.BlockID, cv)
 				}
 				for idx := range commit.Signatures {
 					if commit.Signatures[idx].ForBlock() {
@@ -156,6 +164,39 @@ func (n *Net) Gossip() {
 				}
 			}
 		}
+	}
+}
+
+// sendClaimed models the reactor's VoteSetMaj23 / VoteSetBits exchange: after a
+// majority claim for bid the peer reports which votes FOR THAT BLOCK it holds, and
+// the votes it lacks are sent even if a vote of the same validator went out
+// before (it may have been refused as conflicting when there was no claim yet).
+// Once more per context at most.
+func (n *Net) sendClaimed(i, j int, dst *Node, r int32, typ tmproto.SignedMsgType, bid types.BlockID, votes []*types.Vote) {
+	var vs *types.VoteSet
+	if hv := dst.CS.VerifVotes(); hv != nil {
+		if typ == tmproto.PrevoteType {
+			vs = hv.Prevotes(r)
+		} else {
+			vs = hv.Precommits(r)
+		}
+	}
+	if vs == nil {
+		return
+	}
+	has := vs.BitArrayByBlockID(bid)
+	for _, v := range votes {
+		if !v.BlockID.Equals(bid) || (has != nil && has.GetIndex(int(v.ValidatorIndex))) {
+			continue
+		}
+		key := "VC" + string(v.Signature)
+		if n.curSent != nil {
+			if n.curSent[key] {
+				continue
+			}
+			n.curSent[key] = true
+		}
+		n.Send(i, j, &cs.VoteMessage{Vote: v})
 	}
 }
 
